@@ -220,6 +220,21 @@ def judge (j : Json) : Except String Verdict := do
     | .ok rp => some (rp.update.length, rp.more)
     | .error _ => none
   let recvOk := !normal || (rst.calls == calls && (mReplies == obsReplies || mReplies ++ [none] == obsReplies))
+  -- deterministic model of the PATCHED code (exact arithmetic for float64, envelope of 54
+  -- bytes): measured only, never enforced — the property does not depend on the counts
+  let E : Env Nat Nat Nat Unit (RState Nat Nat) :=
+    { size := fun c => wire c + envelope, limit := limit, policy := policyFixed m, clamp := true,
+      peer := stubRPC h }
+  let det := synchronize E (fuelBound pods ctrs) RState.init pods ctrs
+  let shape := fun (e : Ev Nat Nat Nat) =>
+    ((match e with | .sent .. => 0 | .rejected .. => 1 | .errored .. => 2 : Nat),
+      (evChunk e).pods.length, (evChunk e).ctrs.length, (evChunk e).more)
+  let detSame := normal && det.evs.map shape == evs.map shape
+  let detOutcome := match det.out with
+    | .done _ => "synced"
+    | .failed _ => "failed"
+    | .fault => "fault"
+    | .outOfFuel => "out-of-fuel"
   let agree := normal && traceOk && planMatches && planOk && sizeOk && recvOk
   let awhy :=
     if !normal then "the model of the repaired loop neither crashes, hangs nor runs away"
@@ -251,12 +266,17 @@ def judge (j : Json) : Except String Verdict := do
     ++ (if minChunk then ["min-chunk"] else [])
     ++ (if nUpd > 0 then ["updates"] else [])
     ++ (if traceOk then ["trace"] else [])
+    ++ (if normal then [if detSame then "det-model:same-attempts" else "det-model:different-attempts",
+          if detOutcome == outcome then "det-model:same-outcome" else "det-model:different-outcome"] else [])
   let nontrivial := rejections > 0 || outcome != "synced" || handler != "record" || nUpd > 0
   pure { agree := agree, spec := spec, why := why, cover := cover, nontrivial := nontrivial,
          sig := sig, excluded := false,
          model := Json.mkObj [("trace_accepted", traceOk), ("plan_valid", planOk),
            ("stub_calls", Json.arr (rst.calls.map fun c => Json.arr #[c.1.length, c.2.length]).toArray),
-           ("transmissible", transmissible)] }
+           ("transmissible", transmissible), ("det_outcome", detOutcome),
+           ("det_attempts", Json.arr (det.evs.map fun e =>
+              let (k, p, c, mo) := shape e
+              Json.arr #[k, p, c, mo]).toArray)] }
 
 def main : IO UInt32 := runLines judge
 end Drv.C09
